@@ -174,8 +174,40 @@ def net_request(A, directed, w, perm):
             f"{enc_rats([Fraction(float(x)) for x in w])}")
 
 
+def netw_request(A, M, W, perm):
+    q = lambda X: enc_ratmat([[Fraction(float(x)) for x in r] for r in X])   # noqa: E731
+    return f"netw {','.join(map(str, perm))} {enc_boolmat(A)} {q(M)} {q(W)}"
+
+
+def impl_netw(pn, Wp):
+    """the 5 sections of `netWeightedRelabelled`: the `key=` code path of the four motif clustering
+    coefficients (link attribute "c3" = cubes, so that the matrix of cubic roots is exact up to
+    rounding) and the static `weighted_local_clustering`"""
+    from pyunicorn.core import Network
+    return [attempt(pn.local_cyclemotif_clustering, "c3"), attempt(pn.local_midmotif_clustering, "c3"),
+            attempt(pn.local_inmotif_clustering, "c3"), attempt(pn.local_outmotif_clustering, "c3"),
+            attempt(Network.weighted_local_clustering, Wp) if Wp.any() else None]
+
+
+def betw_request(A, w, S, T, perm):
+    n = A.shape[0]
+    return (f"betw {','.join(map(str, perm))} {enc_boolmat(A)} "
+            f"{enc_rats([Fraction(float(x)) for x in w])} {enc_bools([v in S for v in range(n)])} "
+            f"{','.join(map(str, T)) or '-'}")
+
+
+def impl_betw(pnet, S, T, perm):
+    """the 3 sections of `betwRelabelled`: the renumbered target list, and — for C03's kernel model
+    and for its definition alike — `nsi_betweenness(sources, targets)` of the renumbered network
+    called with the node lists renumbered through the inverse permutation (list order kept)"""
+    inv = np.argsort(np.array(perm))
+    Sp, Tp = [int(inv[k]) for k in S], [int(inv[k]) for k in T]
+    got = attempt(pnet.nsi_betweenness, sources=Sp, targets=Tp)
+    return [[float(x) for x in Tp], got, got]
+
+
 def impl_net(pnet, directed, connected):
-    """the 23 sections of `netRelabelled`, `None` where the implementation's notion differs
+    """the 26 sections of `netRelabelled`, `None` where the implementation's notion differs
     (undirected notions on directed networks, closeness on unconnected ones)"""
     und = not directed
     n = pnet.N
@@ -196,7 +228,12 @@ def impl_net(pnet, directed, connected):
            attempt(pnet.nsi_indegree), attempt(pnet.nsi_outdegree), attempt(pnet.nsi_degree),
            attempt(pnet.nsi_local_clustering) if und else None,
            # round 4: the loop over the edge list (ZeroDivisionError -> not compared)
-           attempt(pnet.assortativity) if und and pnet.n_links > 0 else None]
+           attempt(pnet.assortativity) if und and pnet.n_links > 0 else None,
+           # round 5: `graph - i` (igraph renumbers the later vertices by shifting), BFS on the
+           # reduced network, (E - E_i)/E; the cliquishness kernels with their neighbour buffer
+           attempt(pnet.local_vulnerability) if und and n >= 3 and pnet.n_links > 0 else None,
+           attempt(pnet.local_cliquishness, 4) if und else None,
+           attempt(pnet.local_cliquishness, 5) if und else None]
     return sec
 
 
@@ -295,6 +332,15 @@ def recisrn_request(x, y, metric, tx, ty, txy, px, py):
     return (f"recisrn {','.join(map(str, px))} {','.join(map(str, py))} {metric} "
             f"{enc_rat(Fraction(float(tx)))} {enc_rat(Fraction(float(ty)))} "
             f"{enc_rat(Fraction(float(txy)))} {enc_emb(x)} {enc_emb(y)}")
+
+
+def recjointrate_request(x, y, metric, kx, ky, perm):
+    return (f"recjointrate {','.join(map(str, perm))} {metric} {kx} {ky} {enc_emb(x)} {enc_emb(y)}")
+
+
+def recisrnrate_request(x, y, metric, kx, ky, kxy, px, py):
+    return (f"recisrnrate {','.join(map(str, px))} {','.join(map(str, py))} {metric} "
+            f"{kx} {ky} {kxy} {enc_emb(x)} {enc_emb(y)}")
 
 
 def compare_sections(kind, ans, impl, tol):
@@ -930,6 +976,19 @@ def run(ctx):
             # round 3: the C03 / C11 / C12 models on the renumbered input == permuted_copy
             reqs.append(net_request(A, directed, w, perm))
             meta.append(("net", gi, perm, impl_net(pnet, directed, connected)))
+            # round 5: C03's kernel model of `_nsi_betweenness` and its definition on the renumbered
+            # input == nsi_betweenness(sources, targets) of permuted_copy with renumbered node lists
+            if not directed and n >= 3 and (not quick or rng.random() < 0.5):
+                S = sorted(rng.sample(range(n), rng.randrange(1, n + 1)))
+                T = rng.sample(range(n), rng.randrange(1, n + 1))
+                reqs.append(betw_request(A, w, S, T, perm))
+                meta.append(("betw", gi, perm, impl_betw(pnet, S, T, perm)))
+            # round 5: link-weighted clustering (`key=` path; cubic roots 1/2, 1, 2, 3 of the attribute)
+            if A.sum() > 0:
+                M3 = np.where(W > 0, W, 0.0)
+                pn.set_link_attribute("c3", (M3 ** 3)[idx][:, idx])
+                reqs.append(netw_request(A, M3, W, perm))
+                meta.append(("netw", gi, perm, impl_netw(pn, Wp)))
             if not directed and n >= 3:
                 L1 = [i for i in range(n) if g0[i]]
                 L2 = [i for i in range(n) if not g0[i]]
@@ -941,8 +1000,14 @@ def run(ctx):
                 meta.append(("geo", gi, perm, impl_geo(mk_spatial(perm))))
             # generic oracle on the implementation
             # non-default call patterns on a sample of the (graph, permutation) pairs in the quick tier
+            # round 5: measures with a required `order` argument are invisible to the introspection
+            # of zero-argument methods (a mutation of the cliquishness kernel broke the `net`
+            # correspondence without a failing input): called explicitly for every implemented order
             equivariance(ctx, "Network", mk_net, perm, meas["Network"], n, base,
-                         variants=(not quick) or rng.random() < 0.12)
+                         variants=(not quick) or rng.random() < 0.12,
+                         extra_calls=[(m_, (o_,), {}) for m_ in ("local_cliquishness",
+                                                                 "higher_order_transitivity")
+                                      for o_ in (3, 4, 5)])
             if A.sum() > 0:
                 # round 3: non-default call patterns (geometry_corrected=True, ...) of the
                 # spatial / geo measures as well; they are cheap, so on every pair
@@ -960,6 +1025,9 @@ def run(ctx):
             # node-list arguments are renumbered with the network
             if not directed and n >= 3:
                 interacting(ctx, A, w, W, g0, perm, base)
+            elif directed and n >= 3:
+                # round 5: node groups of directed networks (counts, densities, sub-matrices)
+                interacting(ctx, A, w, W, g0, perm, base, directed=True)
             if not directed and connected and n >= 3 and gi % 3 == 0:
                 Rres = resistive(ctx, A, perm, rng, base)
                 if n <= 8:
@@ -970,7 +1038,7 @@ def run(ctx):
     timeseries_networks(ctx, reqs, meta)
     model = common.driver(ctx.pid, reqs)
     bad_rel, bad_eval, nvals = [], [], 0
-    TOL = {"net": 1e-9, "cross": 1e-9, "res": 1e-6, "geo": 1e-5, "rec": 0.0, "lattr": 0.0}
+    TOL = {"net": 1e-9, "betw": 1e-9, "netw": 1e-9, "cross": 1e-9, "res": 1e-6, "geo": 1e-5, "rec": 0.0, "lattr": 0.0}
     r3_vals = {k: 0 for k in TOL}
     r3_bad = {k: [] for k in TOL}
     for ans, (kind, gi, perm, impl) in zip(model, meta):
@@ -1006,7 +1074,12 @@ def run(ctx):
                    "\n".join(bad_eval[:8]))
     ctx.extra["values_compared"] = nvals
     names = {"net": "C03 model `Net` (degrees, motif clustering, matching index, BFS distances, path "
-                    "measures, coreness peeling, n.s.i. degree / clustering / closeness, assortativity)",
+                    "measures, coreness peeling, n.s.i. degree / clustering / closeness, assortativity, "
+                    "local vulnerability = node removal + BFS + efficiencies, cliquishness kernels)",
+             "betw": "C03 model `NetBetw` (kernel model of _nsi_betweenness *and* its definition, with node "
+                     "weights, source mask and target list renumbered with the nodes)",
+             "netw": "C03 model `Net` / `NetRW` (link-weighted `key=` motif clustering, "
+                     "weighted_local_clustering with the renumbered link attribute)",
              "cross": "C11 model `Cross` (cross / internal measures with node lists renumbered by "
                       "`Relabel.nodes`)",
              "res": "C18 model `Circuit` (effective resistance via certified pseudo-inverses, closeness, "
@@ -1014,7 +1087,8 @@ def run(ctx):
              "geo": "C12 model `Geo` (squared grid distances of renumbered coordinates, link-distance "
                     "measures)",
              "rec": "C07 model `Recurrence` (recurrence-network adjacency of reordered state vectors: fixed "
-                    "threshold, fixed global / local recurrence rate, joint, inter-system)",
+                    "threshold, fixed global / local recurrence rate, joint, inter-system, and the fixed-rate "
+                    "variants of joint / inter-system)",
              "lattr": "C05 model `Repr` (set_link_attribute then link_attribute on the links in the "
                       "order the twin's embedded igraph object lists them, every construction path)"}
     for k in TOL:
@@ -1110,6 +1184,41 @@ def timeseries_networks(ctx, reqs, meta):
         reqs.append(recisrn_request(x, z, metric, thr, thr, thr + 0.5, perm, pz))
         meta.append(("rec", f"ts{rep}:inter-system", tuple(perm + [n + k for k in pz]),
                      [flat(np.asarray(mk_isrn(perm).adjacency, dtype=float))]))
+        # round 5: the fixed-rate variants of the joint (lag 0) and the inter-system network
+        # (`rec_joint_rate_relabel`, `rec_intersystem_rate_relabel`): model on the reordered state
+        # vectors == implementation, and the generic oracle on every network measure
+        rate2, rate3 = rng.choice([0.2, 0.35, 0.6]), rng.choice([0.3, 0.5, 0.7])
+
+        def mk_jrn_rr(p):
+            idx = np.arange(n) if p is None else np.array(p)
+            return JointRecurrenceNetwork(x[idx], y[idx], metric=(metric, metric),
+                                          recurrence_rate=(rate, rate2), silence_level=3)
+
+        def mk_isrn_rr(p):
+            if p is None:
+                return InterSystemRecurrenceNetwork(x, z, metric=metric,
+                                                    recurrence_rate=(rate, rate2, rate3),
+                                                    silence_level=3)
+            return InterSystemRecurrenceNetwork(x[np.array(perm)], z[np.array(pz)], metric=metric,
+                                                recurrence_rate=(rate, rate2, rate3),
+                                                silence_level=3)
+        reqs.append(recjointrate_request(x, y, metric, int(rate * (n * n - 1)),
+                                         int(rate2 * (n * n - 1)), perm))
+        meta.append(("rec", f"ts{rep}:joint-rate", tuple(perm),
+                     [flat(np.asarray(mk_jrn_rr(perm).adjacency, dtype=float))]))
+        reqs.append(recisrnrate_request(x, z, metric, int(rate * (n * n - 1)),
+                                        int(rate2 * (m * m - 1)), int(rate3 * (n * m - 1)),
+                                        perm, pz))
+        meta.append(("rec", f"ts{rep}:inter-system-rate", tuple(perm + [n + k for k in pz]),
+                     [flat(np.asarray(mk_isrn_rr(perm).adjacency, dtype=float))]))
+        equivariance(ctx, "JointRecurrenceNetwork", mk_jrn_rr, perm,
+                     own(JointRecurrenceNetwork, RecurrencePlot, JointRecurrencePlot), n,
+                     dict(base, y=y.tolist(), cls="JointRecurrenceNetwork",
+                          recurrence_rate=[rate, rate2]))
+        equivariance(ctx, "InterSystemRecurrenceNetwork", mk_isrn_rr, perm + [n + k for k in pz],
+                     own(InterSystemRecurrenceNetwork), n + m,
+                     dict(base, y=z.tolist(), cls="InterSystemRecurrenceNetwork",
+                          recurrence_rate=[rate, rate2, rate3]))
         equivariance(ctx, "RecurrenceNetwork", mk_rn_rr, perm,
                      own(RecurrenceNetwork, RecurrencePlot), n,
                      dict(base, cls="RecurrenceNetwork", recurrence_rate=rate))
@@ -1125,7 +1234,18 @@ def timeseries_networks(ctx, reqs, meta):
                      dict(base, y=z.tolist(), cls="InterSystemRecurrenceNetwork"))
 
 
-def interacting(ctx, A, w, W, g0, perm, base):
+# round 5: measures of node groups that are plain counts / sums / sub-matrices / directed path
+# lengths and therefore numbering independent on *directed* networks too (the clustering-, closeness-
+# and betweenness-type group measures are undirected notions, cf. the `C04-directed-*` findings)
+INTERACTING_DIRECTED_OK = {
+    "cross_degree", "cross_indegree", "cross_outdegree", "cross_link_density", "number_cross_links",
+    "total_cross_degree", "cross_degree_density", "cross_adjacency", "cross_link_attribute",
+    "cross_path_lengths", "internal_adjacency", "internal_path_lengths", "number_internal_links",
+    "internal_link_density", "internal_degree", "internal_indegree", "internal_outdegree",
+    "internal_link_attribute", "nsi_cross_degree", "nsi_internal_degree"}
+
+
+def interacting(ctx, A, w, W, g0, perm, base, directed=False):
     from pyunicorn.core import InteractingNetworks
     n = A.shape[0]
     idx = np.array(perm)
@@ -1134,8 +1254,9 @@ def interacting(ctx, A, w, W, g0, perm, base):
     L2 = [i for i in range(n) if not g0[i]]
     if not L1 or not L2:
         return
-    a = InteractingNetworks(adjacency=A, node_weights=w, silence_level=3)
-    b = InteractingNetworks(adjacency=A[idx][:, idx], node_weights=w[idx], silence_level=3)
+    a = InteractingNetworks(adjacency=A, directed=directed, node_weights=w, silence_level=3)
+    b = InteractingNetworks(adjacency=A[idx][:, idx], directed=directed, node_weights=w[idx],
+                            silence_level=3)
     a.set_link_attribute("w", W)
     b.set_link_attribute("w", W[idx][:, idx])
     P1, P2 = [int(inv[k]) for k in L1], [int(inv[k]) for k in L2]
@@ -1159,6 +1280,8 @@ def interacting(ctx, A, w, W, g0, perm, base):
                  "nsi_internal_closeness_centrality", "internal_link_attribute"):
         if not hasattr(InteractingNetworks, name):
             continue
+        if directed and name not in INTERACTING_DIRECTED_OK:
+            continue
         args_a, args_b = (L1, L2), (P1, P2)
         if name == "cross_link_attribute":
             args_a, args_b = ("w", L1, L2), ("w", P1, P2)
@@ -1177,18 +1300,21 @@ def interacting(ctx, A, w, W, g0, perm, base):
             try:
                 vb = quiet(getattr(b, name), *args_b, **kw)
             except Exception as ex:  # noqa
-                ctx.fail({"kind": "raises-on-permuted", "class": "InteractingNetworks", "measure": name},
+                ctx.fail(dict({"kind": "raises-on-permuted", "class": "InteractingNetworks", "measure": name},
+                              **({"input_class": "directed"} if directed else {})),
                          f"InteractingNetworks.{shown} raises {type(ex).__name__} on the renumbered network",
                          dict(base, measure=name, kwargs=kw, permutation=list(perm), node_list1=L1,
                               node_list2=L2))
                 continue
-            ctx.count("InteractingNetworks:measures-compared" + (":non-default-args" if kw else ""))
+            ctx.count("InteractingNetworks:measures-compared" + (":directed" if directed else "")
+                      + (":non-default-args" if kw else ""))
             # results are indexed by position in the node lists, which correspond one to one —
             # except per-node arrays over the whole network, which are permuted
             if np.asarray(va).shape == (n,) and len(L1) != n:
                 va = np.asarray(va)[idx]
             if not same_val(va, vb):
-                ctx.fail({"kind": "not-equivariant", "class": "InteractingNetworks", "measure": name},
+                ctx.fail(dict({"kind": "not-equivariant", "class": "InteractingNetworks", "measure": name},
+                              **({"input_class": "directed"} if directed else {})),
                          f"InteractingNetworks.{shown}(L1, L2) changes when nodes and node lists are "
                          f"renumbered",
                          dict(base, measure=name, kwargs=kw, permutation=list(perm), node_list1=L1,
